@@ -71,18 +71,21 @@ Definition removed_in (env : list (string * bool)) (p : string) : bool :=
 Definition first_nval (l : list (bool * nattr)) (name dflt : string) : string :=
   match find (fun e => String.eqb (nt_name (snd e)) name) l with Some e => nt_val (snd e) | None => dflt end.
 
-(* xmlSetNsProp(node, ns = (cellml, target), name, val) *)
+(* xmlSetNsProp(node, ns = (cellml, target), name, val): overwrite the value of the first attribute of that namespace and
+   local name, else append *)
+Definition nhit (target name : string) (e : bool * nattr) : bool :=
+  String.eqb (nt_name (snd e)) name && String.eqb (nt_ns (snd e)) target && negb (String.eqb (nt_prefix (snd e)) "").
+
+Fixpoint nset_go (target name val : string) (l : list (bool * nattr)) (done : bool) : list (bool * nattr) :=
+  match l with
+  | [] => []
+  | e :: r => if negb done && nhit target name e
+              then (fst e, mkNA (nt_prefix (snd e)) (nt_ns (snd e)) (nt_name (snd e)) val) :: nset_go target name val r true
+              else e :: nset_go target name val r done
+  end.
+
 Definition nset_prop (l : list (bool * nattr)) (target name val : string) : list (bool * nattr) :=
-  let hit := fun e : bool * nattr => String.eqb (nt_name (snd e)) name && String.eqb (nt_ns (snd e)) target
-                                     && negb (String.eqb (nt_prefix (snd e)) "") in
-  if existsb hit l
-  then (fix go (l : list (bool * nattr)) (done : bool) : list (bool * nattr) :=
-          match l with
-          | [] => []
-          | e :: r => if negb done && hit e
-                      then (fst e, mkNA (nt_prefix (snd e)) (nt_ns (snd e)) (nt_name (snd e)) val) :: go r true
-                      else e :: go r done
-          end) l false
+  if existsb (nhit target name) l then nset_go target name val l false
   else l ++ [(false, mkNA "cellml" target name val)].
 
 (* the first marked attribute: (those before it, itself, those after it) *)
@@ -100,10 +103,10 @@ Fixpoint move_marked (fuel : nat) (target : string) (l : list (bool * nattr)) : 
     match split_marked l with
     | None => l
     | Some (a, x, b) =>
+      (* value() looks at the element as it is (old attribute included); xmlSetNsProp cannot hit the old attribute (its
+         namespace is a 1.x one or none), so setting the property and unlinking the old attribute commute *)
       let val := first_nval l (nt_name x) (nt_val x) in
-      (* set the property on the whole list, then unlink the old attribute (it sits at position |a|) *)
-      let l' := nset_prop (a ++ (false, x) :: b) target (nt_name x) val in
-      move_marked f target (firstn (length a) l' ++ skipn (S (length a)) l')
+      move_marked f target (nset_prop (a ++ b) target (nt_name x) val)
     end
   end.
 
@@ -174,3 +177,28 @@ Fixpoint no_1x_decl (x : nxml) : bool :=
     && (fix go (l : list nxml) : bool := match l with [] => true | k :: r => no_1x_decl k && go r end) ks
   | _ => true
   end.
+
+(** no declaration of a 1.x namespace and no attribute in one, anywhere *)
+Definition attr_clean (a : nattr) : bool := negb (ns_is_1x (nt_ns a)).
+
+Fixpoint clean_tree (x : nxml) : bool :=
+  match x with
+  | NElem _ _ _ decls attrs ks =>
+    forallb (fun d => negb (decl_is_1x d)) decls && forallb attr_clean attrs
+    && (fix go (l : list nxml) : bool := match l with [] => true | k :: r => clean_tree k && go r end) ks
+  | _ => true
+  end.
+
+
+(** closed examples: the legacy prefix declared on math / on an inner element but not used; declared on math and used *)
+Definition nmath (decls : list (string * string)) (ks : list nxml) : nxml := NElem "" MATHML_NS "math" (("", MATHML_NS) :: decls) [] ks.
+Definition nel (name : string) (decls : list (string * string)) (attrs : list nattr) (ks : list nxml) : nxml :=
+  NElem "" MATHML_NS name decls attrs ks.
+Definition ex_unused_on_math : nxml :=
+  nmath [("cellml", CELLML_1_0_NS)] [nel "apply" [] [] [nel "eq" [] [] []; nel "ci" [] [] [NText "x"]; nel "ci" [] [] [NText "x"]]].
+Definition ex_unused_inner : nxml :=
+  nmath [] [nel "apply" [("cellml", CELLML_1_1_NS)] [] [nel "eq" [] [] []; nel "ci" [("c", CELLML_1_0_NS)] [] [NText "x"]; nel "ci" [] [] [NText "x"]]].
+Definition ex_used : nxml :=
+  nmath [("cellml", CELLML_1_0_NS)]
+        [nel "apply" [] [] [nel "eq" [] [] []; nel "ci" [] [] [NText "x"];
+                            nel "cn" [] [mkNA "cellml" CELLML_1_0_NS "units" "second"; mkNA "" "" "type" "real"] [NText "1"]]].
